@@ -45,6 +45,11 @@ def _check_views(res, n, ctx, who):
         if hasattr(sc, "relative_frequency_by_int"):
             views.append(("relative_frequency", np.asarray(sc.relative_frequency_by_int, dtype=float), sc.relative_frequency_by_str))
         views.append(("probability", np.asarray(sc.probability_by_int, dtype=float), sc.probability_by_str))
+        # the deprecated name is documented as the simulated probabilities where there are some,
+        # else the relative frequencies
+        twin = sc.simulated_probability_by_int if hasattr(sc, "simulated_probability_by_int") else sc.relative_frequency_by_int
+        if not np.array_equal(np.asarray(sc.probability_by_int, dtype=float), np.asarray(twin, dtype=float)):
+            raise Violation("deprecated-view-differs", f"[{who}] probability_by_int {list(sc.probability_by_int)} is not {list(twin)}\n{ctx}", where=who)
         for name, by_int, by_str in views:
             keys = list(by_str.keys())
             want = [bits(k, n) for k in range(2**n)]
